@@ -65,8 +65,8 @@ type EvRedef struct {
 	Inputs []Label `json:"inputs"`
 	Given  []Label `json:"given"`  // label under which the harness supplied each declared input (interface types -> dynamic type)
 	Given2 []Label `json:"given2"` // the same for the second and third call (another implementing type for interface inputs)
-	Toks   []int   `json:"toks"`  // fresh tokens handed to the follow-up call, per declared input
-	Toks3  []int   `json:"toks3"` // fresh tokens handed to the third call (all declared inputs but the last)
+	Toks   []int   `json:"toks"`   // fresh tokens handed to the follow-up call, per declared input
+	Toks3  []int   `json:"toks3"`  // fresh tokens handed to the third call (all declared inputs but the last)
 	Detail string  `json:"detail"`
 	Execs  int     `json:"execs"` // number of user bodies executed during Redefine
 }
@@ -375,12 +375,16 @@ func (env *Env) buildBuilt(idx int, fs FuncSpec, opts []am.Arg) (*am.Func, error
 			if p == nil {
 				panic(fmt.Sprintf("harness: built output %v not found in value set", l))
 			}
+			ex.Outs = append(ex.Outs, t)
+			if fs.Fails && idx%2 == 1 {
+				// every other failing callback fails before it has filled in its outputs, as `if err != nil { return err }` does
+				continue
+			}
 			p.Value = MkValue(l.Type, t)
 			if c, ok := ifaceImpl[l.Type]; ok {
 				// as a callback using reflect.ValueOf(impl) would do it: a value of the implementing type
 				p.Value = MkValue(c, t)
 			}
-			ex.Outs = append(ex.Outs, t)
 		}
 		var ret error
 		if fs.Fails {
